@@ -68,3 +68,11 @@ TEXT ·cleanCopy16(SB),NOSPLIT,$0-16
 	VMOVDQU (BX), X0
 	VMOVDQU X0, (AX)
 	RET
+
+// control: REGISTER-DEFINED (X0 and X1 are read although nothing has written them: the result is whatever an earlier
+// call left there)
+TEXT ·staleRegisterRead(SB),NOSPLIT,$0-8
+	MOVQ dst+0(FP), AX
+	VPXORD X1, X0, X2
+	VMOVDQU X2, (AX)
+	RET
